@@ -252,4 +252,16 @@ pub open spec fn none_witness(&self, start: int, kk: nat, tag: u8, f: spec_fn(us
 pub open spec fn slot_ok(&self, s: Option<usize>) -> bool {
     s matches Some(i) ==> i <= self.bucket_mask && (self.nb() >= Group::WIDTH ==> self.ctrl@[i as int] >= 0x80u8)
 }
+/// F2 for bucket i and hash h: some probe window k contains bucket i and no earlier window holds an EMPTY byte
+pub open spec fn reach(&self, i: int, h: u64) -> bool {
+    exists|k: nat| #[trigger] self.reach_at(i, h, k)
+}
+pub open spec fn reach_at(&self, i: int, h: u64, k: nat) -> bool {
+    let n = self.nb();
+    let start = h as usize as int;
+    &&& (n >= Group::WIDTH ==> (k as int) < n / (Group::WIDTH as int))
+    &&& (n < Group::WIDTH ==> k == 0)
+    &&& 0 <= (i - spec_pos(start, n, k)) % n < Group::WIDTH
+    &&& forall|j: nat, t: int| j < k && 0 <= t < Group::WIDTH ==> #[trigger] self.win(spec_pos(start, n, j), t) != 0xFFu8
+}
 }
